@@ -1,4 +1,8 @@
-import PrimitivModel.Lemmas.Optim
+import PrimitivModel.Lemmas.OptimBase
+import Mathlib.Algebra.Order.Field.Basic
+import Mathlib.Tactic.Ring
+import Mathlib.Tactic.FieldSimp
+import Mathlib.Algebra.Order.Ring.Rat
 /-
 Helper lemmas of property C15 (checkpoint / resume): round trip of the
 configuration maps, the invariant `Good` of training states, the frame lemma
